@@ -62,7 +62,71 @@ func coreItemsFiltered(tier string, mk func(a *Alpha, ns NamedSkel, focus []stri
 			}
 		}
 	}
+	// shape grammar: every struct of two (thorough: also three) fields drawn from the field shapes
+	// {Str, Slice(Int), Ptr(Str), Struct, Ptr(Struct), Slice(Struct)}, every pair of units over the
+	// reduced alphabets. Sibling combinations (two records, a record next to an optional record, …)
+	// are covered by construction instead of by the hand-picked list above.
+	for _, ns := range shapeSkeletons(tier) {
+		if keep != nil && !keep(ns) {
+			continue
+		}
+		units := skelUnits(ns.S, elems)
+		kk := 2
+		if maxK > 0 && kk > maxK {
+			kk = maxK
+		}
+		probe := &Alpha{Tier: tier}
+		if alphaMod != nil {
+			alphaMod(probe)
+		}
+		if probe.WithPost && tier != "thorough" {
+			kk = 1 // the PostTransform dimension multiplies every unit by 7: pairs over the shape grammar are left to the thorough tier
+		}
+		for _, mode := range modes {
+			for _, fs := range focusSets(units, kk) {
+				a := &Alpha{Tier: tier, Mode: mode}
+				if alphaMod != nil {
+					alphaMod(a)
+				}
+				a.Lite = true
+				name := fmt.Sprintf("%s/%s/{%s}", ns.Name, []string{"Parse", "Validate"}[mode], strings.Join(fs, ","))
+				items = append(items, Item{Name: name, Run: mk(a, ns, fs, elems), MaxDevs: -1})
+			}
+		}
+	}
 	return items
+}
+
+// shapeSkeletons enumerates struct skeletons from a grammar of field shapes.
+func shapeSkeletons(tier string) []NamedSkel {
+	type shape struct {
+		name string
+		mk   func() *Skel
+	}
+	shapes := []shape{
+		{"Str", func() *Skel { return sp(KStr) }},
+		{"L", func() *Skel { return sl(sp(KInt)) }},
+		{"R", func() *Skel { return sr(sp(KStr)) }},
+		{"S", func() *Skel { return ss("g1", sp(KStr)) }},
+		{"RS", func() *Skel { return sr(ss("g1", sp(KStr))) }},
+		{"LS", func() *Skel { return sl(ss("g1", sp(KStr))) }},
+	}
+	var list []NamedSkel
+	for i := range shapes {
+		for j := i; j < len(shapes); j++ {
+			list = append(list, NamedSkel{"G2[" + shapes[i].name + "," + shapes[j].name + "]", ss("f1", shapes[i].mk(), "f2", shapes[j].mk())})
+			if tier != "thorough" {
+				continue
+			}
+			for k := j; k < len(shapes); k++ {
+				list = append(list, NamedSkel{"G3[" + shapes[i].name + "," + shapes[j].name + "," + shapes[k].name + "]", ss("f1", shapes[i].mk(), "f2", shapes[j].mk(), "f3", shapes[k].mk())})
+			}
+		}
+	}
+	for _, ns := range list {
+		ns.S.label("")
+	}
+	return list
 }
 
 func thoroughPrefix(tier string) string {
@@ -172,7 +236,7 @@ func firstLine(s string) string {
 func init() {
 	Register(&Prop{
 		ID:    "C02",
-		Rule:  "one execution = one (skeleton, mode, ≤k focus units each ranging over its full configuration×input alphabet, field visit order at every struct visit) case; all other units are plain (optional, one passing recording test, valid input); non-trivial = at least one unit deviates from plain; distinct = distinct (skeleton, mode, expected issue multiset)",
+		Rule:  "one execution = one (skeleton, mode, ≤k focus units each ranging over its full configuration×input alphabet, field visit order at every struct visit) case; all other units are plain (optional, one passing recording test, valid input); non-trivial = at least one unit deviates from plain; distinct = distinct (skeleton, mode, expected issue multiset). plus " + callsRule,
 		Floor: 50,
 		Bound: func(tier string) string {
 			k, e := coreK(tier)
@@ -183,7 +247,9 @@ func init() {
 			"order of issues within one map key is compared as a multiset; $first is excluded (C10 checks it)",
 		},
 		Items: func(tier string) []Item {
-			return coreItems(tier, c02Scenario, nil, []int{0, 1}, 0)
+			items := coreItems(tier, c02Scenario, nil, []int{0, 1}, 0)
+			// the issues a caller holds are exactly the violations, also after later and overlapping executions
+			return append(items, callsItems(tier, "C02", "clean-despite-violation", "depends-on-history", "nested-call-differs", "earlier-result-changed", "panic")...)
 		},
 	})
 }
